@@ -93,6 +93,7 @@ class Job(object):
         self.build_s = 0.0
         self.run_s = 0.0
         self.skipped = False
+        self.timed_out = False
 
     @property
     def label(self):
@@ -151,8 +152,12 @@ def build_job(job):
     return job
 
 
-def run_job(job, tier, seed, timeout):
+def run_job(job, tier, seed, timeout, deadline=None):
     t0 = time.time()
+    if deadline is not None:
+        # a harness still running when the check's deadline (plus a grace period) passes is stopped and counted as not explored, never as a failure:
+        # under load a slow run is not a hang. The evidence then says exhaustive=false and names the jobs.
+        timeout = max(30, min(timeout, deadline + (120 if tier == "quick" else 300) - t0))
     d = os.path.dirname(job.binary)
     out = os.path.join(d, "result.%s.%d.%d.json" % (tier, os.getpid(), id(job)))
     cmd = [job.binary, "--tier", tier, "--seed", str(seed), "--out", out] + job.run_args
@@ -163,6 +168,9 @@ def run_job(job, tier, seed, timeout):
     except subprocess.TimeoutExpired as e:
         job.run_rc = -999
         job.run_log = "timeout after %ds" % timeout
+        if deadline is not None:
+            job.skipped = True
+            job.timed_out = True
     if job.run_rc == 0 and os.path.exists(out):
         try:
             job.result = json.load(open(out))
@@ -209,10 +217,7 @@ def build_and_run(job, tier, seed, timeout, deadline):
             job.result = {"stats": stats, "notes": [], "mxcsr_changes": [], "wall_s": 0}
             job.run_rc = 0
             return job
-    run_job(job, tier, seed, timeout)
-    if job.run_rc == -999:
-        # re-run alone with 4x the limit before calling it a hang
-        run_job(job, tier, seed, 4 * timeout)
+    run_job(job, tier, seed, timeout, deadline)
     return job
 
 
@@ -412,12 +417,15 @@ def finish(pid, tier, seed, jobs, classes_info, t_start, deadline, extra_cov=Non
     samples = []
     mxcsr = []
     skipped = 0
+    timed_out = []
     notes = set()
     per_job = []
     outcomes = set()
     for j in jobs:
         if j.skipped:
             skipped += 1
+            if j.timed_out:
+                timed_out.append(j.label + (" " + " ".join(j.run_args) if j.run_args else ""))
             continue
         if not j.build_ok:
             failures.append({"kind": "build", "job": j, "subject": j.tu + "[" + str(j.part) + "]", "op": "compile",
@@ -556,7 +564,7 @@ def finish(pid, tier, seed, jobs, classes_info, t_start, deadline, extra_cov=Non
         "explanation": P.PROPS[pid].get("explanation", ""),
         "configs_run": sorted(set(j.cfg.name for j in jobs if not j.skipped)),
         "classes": classes_info,
-        "jobs": len(jobs), "jobs_skipped_deadline": skipped,
+        "jobs": len(jobs), "jobs_skipped_deadline": skipped, "jobs_stopped_at_deadline": timed_out[:40],
         "operations_explored": stats_total["ops"],
         "subjects": sorted(stats_total["subjects"]),
         "distinct_outcome_digests": len(outcomes),
